@@ -1,4 +1,4 @@
-import Brax.Lemmas.C02Compose
+import Brax.Lemmas.C02Root
 import Brax.Props.C01
 /-!
 # C02 — generalized-pipeline dynamics terms equal the reference engine
@@ -465,6 +465,45 @@ structure DynOK (s : Sys ℝ) (q qd : List ℝ) : Prop where
   low : ∀ i : Nat, -1 ≤ s.parents.getD i (-1)
   kin : C01.KinOK s q qd
   basis : ∀ l ∈ linkSlices s.types q qd s.dofs, l.typ = .free → l.dofs.map (·.motion) = freeBasis
+
+/-- **`root_com` equals MuJoCo's `subtree_com[body_rootid]`**: the per-tree centre of mass brax
+computes with `segment_sum` over the root index is the reference's backward subtree accumulation
+read at the root body — every `DynOK` system and state (`revAcc_root`: peel-last-link induction
+over an abstract commutative monoid; `scan_root_value`). -/
+theorem rootCom_eq (s : Sys ℝ) (q qd ctrl : List ℝ) (h : DynOK s q qd) :
+    (dynInit s q qd).com.rootCom = (MjD.forwardData s q qd ctrl).rootCom := by
+  set x := (Kin.forward s q qd).map (·.1) with hxdef
+  have hx : x = (MjD.forwardData s q qd ctrl).xpose := by
+    rw [xpose_eq_kinematics]; exact C01.forward_pos_eq_mj s q qd h.kin
+  have hxl : x.length = s.types.length := by
+    rw [hxdef, List.length_map]; exact forward_length s q qd h.parents h.links
+  have h1 : (dynInit s q qd).com.rootCom
+      = (rootIdx s.parents).map (fun r =>
+          (⟨(segSum V3.zero V3.add (List.zipWith (fun m (t : Tf ℝ) => V3.smul m t.pos)
+                (s.links.map (·.inertia.mass))
+                (List.zipWith (fun (t : Tf ℝ) (lk : LinkP ℝ) => Tf.doTf t lk.inertia.tf) x s.links))
+              (rootIdx s.parents) r).x
+              / segSum 0 (· + ·) (s.links.map (·.inertia.mass)) (rootIdx s.parents) r,
+            (segSum V3.zero V3.add (List.zipWith (fun m (t : Tf ℝ) => V3.smul m t.pos)
+                (s.links.map (·.inertia.mass))
+                (List.zipWith (fun (t : Tf ℝ) (lk : LinkP ℝ) => Tf.doTf t lk.inertia.tf) x s.links))
+              (rootIdx s.parents) r).y
+              / segSum 0 (· + ·) (s.links.map (·.inertia.mass)) (rootIdx s.parents) r,
+            (segSum V3.zero V3.add (List.zipWith (fun m (t : Tf ℝ) => V3.smul m t.pos)
+                (s.links.map (·.inertia.mass))
+                (List.zipWith (fun (t : Tf ℝ) (lk : LinkP ℝ) => Tf.doTf t lk.inertia.tf) x s.links))
+              (rootIdx s.parents) r).z
+              / segSum 0 (· + ·) (s.links.map (·.inertia.mass)) (rootIdx s.parents) r⟩ : V3 ℝ)) := rfl
+  have h2 : (MjD.forwardData s q qd ctrl).rootCom
+      = scanFwd (fun (par : Option (V3 ℝ)) (c : V3 ℝ) => par.getD c) s.parents
+          (List.zipWith (fun (v : V3 ℝ) m => (⟨v.x / m, v.y / m, v.z / m⟩ : V3 ℝ))
+            (revAcc V3.add s.parents (List.zipWith V3.smul (s.links.map (·.inertia.mass))
+              (List.zipWith (fun (x : Tf ℝ) (lk : LinkP ℝ) => x.pos + rotate lk.inertia.tf.pos x.rot)
+                (MjD.forwardData s q qd ctrl).xpose s.links)))
+            (revAcc (· + ·) s.parents (s.links.map (·.inertia.mass)))) := rfl
+  rw [h1, h2, ← hx, zipWith_smul_pos]
+  exact rootCom_eq_spec s.parents _ _ s.types.length h.parents (by simp [h.links])
+    (by simp [hxl, h.links]) h.wf
 
 /-- **Model = Spec for every CoM-frame quantity, the bias force and the total smooth force**, for
 every `DynOK` system and state — composing C01's `forward_pos_eq_mj` (link poses), `cdof_eq_mj`
